@@ -695,8 +695,11 @@ class PendingAssign(PendingNode[Assign | AnnAssign]):
         else:
             assign_targets = self.node.targets
 
-        if len(assign_targets) > 1:
+        if len(assign_targets) > 1 or isinstance(
+            assign_targets[0], (Attribute, Subscript)
+        ):
             # `a = b = f()`: evaluate the value once, save it to a tmp var
+            # `a().b = f()`: evaluate the value before the target
             tmp_value_name = Name(id=ol_name(OL_ASSIGN_TMP))
             return_list.append(NamedExpr(target=tmp_value_name, value=assign_value))
             assign_value = tmp_value_name
@@ -772,7 +775,14 @@ class PendingAugAssign(PendingNode[AugAssign]):
             # todo: could be optimized if slice is const
             tmp_slice_name = Name(id=ol_name(OL_AUGASSIGN_SLICE_TMP))
             target = self.node.target
-            subscript_parent = expr_transf(self.nsp, target.value)
+            # evaluate the object once, and before the index
+            subscript_parent = Name(id=ol_name(OL_AUGASSIGN_OBJ_TMP))
+            return_list.append(
+                NamedExpr(
+                    target=subscript_parent,
+                    value=expr_transf(self.nsp, target.value),
+                )
+            )
 
             slice_expr = utils.convert_index(expr_transf(self.nsp, target.slice))
 
@@ -815,7 +825,14 @@ class PendingAugAssign(PendingNode[AugAssign]):
             )
         elif isinstance(self.node.target, Attribute):
             target = self.node.target
-            attr_parent = expr_transf(self.nsp, target.value)
+            # evaluate the object once
+            attr_parent = Name(id=ol_name(OL_AUGASSIGN_OBJ_TMP))
+            return_list.append(
+                NamedExpr(
+                    target=attr_parent,
+                    value=expr_transf(self.nsp, target.value),
+                )
+            )
             return_list.append(
                 NamedExpr(
                     target=tmp_target_name,
